@@ -26,7 +26,15 @@ echo "== demo on unmodified tree ($tname)"
 git apply $M/patch.diff || { echo "PATCH DOES NOT APPLY"; exit 3; }
 echo "== build + suite with the patch"
 rm -f $pkgdir/$(basename "$demo")
-go build ./... && unshare -rn bash -c "ip link set lo up; go test -vet=off -count=1 ./... 2>&1" | grep -v "no test files" | tail -4
+# (the library's own TestSegments/decompress_error hangs about once in ten runs on the unmodified tree as well - it corrupts
+# one byte of a random deflate stream and waits for an error that does not always come: one retry for that case only)
+go build ./... || exit 4
+for attempt in 1 2; do
+  unshare -rn bash -c "ip link set lo up; go test -vet=off -count=1 -timeout 150s ./... 2>&1" > /tmp/muteval-suite-$$.out
+  if grep -a -q "TestSegments/decompress_error" /tmp/muteval-suite-$$.out && [ $attempt = 1 ]; then echo "(suite: known flaky TestSegments/decompress_error hung, retrying)"; continue; fi
+  break
+done
+grep -a -E "^(ok|FAIL|---|panic:)" /tmp/muteval-suite-$$.out | grep -v "no test files" | tail -4; rm -f /tmp/muteval-suite-$$.out
 [ -n "$demo" ] && cp "$demo" $pkgdir/
 echo "== demo with the patch"
 (cd $pkgdir && unshare -rn bash -c "ip link set lo up; go test -vet=off -count=1 -run '^${tname}\$' . 2>&1" | tail -4)
